@@ -2,6 +2,7 @@
 C11 — Buffer delay and the can_put / can_get queries are exact.
 -/
 import FsVerif.Proofs.BufExtra
+import FsVerif.Proofs.Fleet
 namespace FsVerif.Props.C11
 open FsVerif BufStore
 
@@ -61,5 +62,16 @@ theorem buf_occupancy_counts_both (s : BufStore) : s.occupancy = s.transit.lengt
 /-- Non-vacuity: an item with delay 3 is not retrievable at 2 and is at 3. -/
 example : let s := run (init { cap := some 2 }) [.reservePut 0, .put 0 0 ⟨1, 0⟩ 3, .adv 2, .settle]
     s.canGet = false ∧ ((s.step (.adv 1)).1.step .settle).1.canGet = true := by decide
+
+/-! ### Fleet (edges/fleet.py): can_put / can_get are exact at every reachable state of the fleet - during trips, at the instant of a
+departure or an arrival: `can_put()` is true exactly when a space reservation issued now is granted at once, same for `can_get()` -/
+
+theorem fleet_can_put_exact {s : FleetStore} (h : FleetStore.ReachD s) (p : Nat) :
+    s.canPut = true ↔ ∃ t ∈ (s.b.reservePut p).1.putRes, t.id = s.b.nextTid :=
+  BufStore.canPut_iff (FleetStore.reachD_kt h).core p
+
+theorem fleet_can_get_exact {s : FleetStore} (h : FleetStore.ReachD s) (p : Nat) :
+    s.canGet = true ↔ ∃ t ∈ (s.b.reserveGet p).1.getRes, t.id = s.b.nextTid :=
+  BufStore.canGet_iff (FleetStore.reachD_kt h).core p
 
 end FsVerif.Props.C11
